@@ -134,7 +134,7 @@ static Verdict check_grad(const Program &P, Stats &st) {
 
 #include "prog_batch_api.h"
 #include "prog_backend.h"
-// MODE-FUNCTIONS-HERE
+#include "prog_shrink.h"
 
 // =================================================================== driver
 static void count_ops(const Program &P, Stats &st) { for (auto &I : P.ins) st.hist[OP_NAMES[I.code]]++; }
@@ -151,7 +151,6 @@ static Verdict check(const string &mode, const Program &P, Stats &st) {
   if (mode == "batch") return check_batch(P, st);
   if (mode == "api") return check_api(P, st);
   if (mode == "backend") return check_backend(P, st);
-  // MODE-DISPATCH-HERE
   return Verdict::F("bad-mode " + mode);
 }
 static string json_summary(const string &mode, uint64_t seed, const Stats &st) {
@@ -207,7 +206,6 @@ int main(int argc, char **argv) {
     char *line = nullptr; size_t cap = 0; string first;
     while (getline(&line, &cap, f) > 0) { first = line; if (first.find('|') != string::npos) break; }
     fclose(f);
-    extern void print_candidates(const Program &);
     try { print_candidates(parse_program(first)); } catch (ParseError &e) { fprintf(stderr, "parse error: %s\n", e.msg.c_str()); return 2; }
     return 0;
   }
@@ -244,4 +242,3 @@ int main(int argc, char **argv) {
   printf("SUMMARY %s\n", json_summary(mode, seed, st).c_str());
   return 0;
 }
-void print_candidates(const Program &) {}
